@@ -137,3 +137,71 @@ Section Run.
         apply (IH j); [rewrite Hc; lia|]. eauto.
   Qed.
 End Run.
+
+(* ---- the accounting is a function: outcome and final state are determined ---- *)
+Section Determinism.
+  Variable p : profile.
+  Variable reg : registry.
+  Variable clock : Z -> Z.
+  Lemma runs_to_deterministic c w s o1 w1 s1 o2 w2 s2 :
+    runs_to p reg clock c w s o1 w1 s1 -> runs_to p reg clock c w s o2 w2 s2 -> o1 = o2 /\ w1 = w2 /\ s1 = s2.
+  Proof.
+    intros H. revert o2 w2 s2.
+    induction H as [c w s H|c w s H1 H2|c w s H1 H2 H3|c w s wa sa H1 H2 H3 H4|c w s wa sa o w' s' H1 H2 H3 H4 H5 IH];
+      intros o2 w2 s2 R; inversion R; subst; try lia; try (repeat split; reflexivity);
+      try (match goal with A : st_exec ?s = [], B : step _ _ _ ?s = Ok (false, _, _) |- _ =>
+             rewrite (step_empty_exec_noop _ _ _ _ A) in B; discriminate end);
+      try (match goal with A : step _ _ ?w ?s = Ok _, B : step _ _ ?w ?s = Ok _ |- _ =>
+             rewrite A in B; inversion B; subst end); try lia; try (repeat split; reflexivity).
+    now apply IH.
+  Qed.
+End Determinism.
+
+(* ---- instrumented loop: also counts the step calls that did not finish ---- *)
+Section Count.
+  Variable p : profile.
+  Variable reg : registry.
+  Variable clock : Z -> Z.
+  Fixpoint run_loop_n (fuel : nat) (c : Z) (n : Z) (w : world) (s : state) : res (outcome * world * state * Z) :=
+    match fuel with
+    | O => Ok (OutOfFuel, w, s, n)
+    | S f =>
+        if cfg_eval_push_limit (st_cfg s) <? c then Ok (StepLimit, w, s, n)
+        else if cfg_eval_time_limit (st_cfg s) <? clock c then Ok (TimeLimit, w, s, n)
+        else
+          let z := state_size s in
+          let! r := step p reg w s in
+          let '(fin, w', s') := r in
+          if fin then Ok (NoErrors, w', s', n)
+          else if z + cfg_growth_cap (st_cfg s') <? state_size s' then Ok (GrowthCap, w', s', n + 1)
+          else run_loop_n f (c + 1) (n + 1) w' s'
+    end.
+  Lemma run_loop_n_agrees fuel : forall c n w s,
+    rmap (fun r : outcome * world * state * Z => fst r) (run_loop_n fuel c n w s) = run_loop p reg clock fuel c w s.
+  Proof.
+    induction fuel as [|f IH]; intros c n w s; cbn [run_loop_n run_loop]; [reflexivity|].
+    destruct (_ <? c); [reflexivity|]. destruct (_ <? clock c); [reflexivity|].
+    destruct (step p reg w s) as [[[fin w1] s1]| |]; cbn [rbind rmap]; try reflexivity.
+    destruct fin; [reflexivity|]. destruct (_ <? state_size s1); [reflexivity|]. apply IH.
+  Qed.
+  (* the count is the number of step calls of the accounting *)
+  Lemma run_loop_n_counts fuel : forall c n w s o w' s' m,
+    run_loop_n fuel c n w s = Ok (o, w', s', m) ->
+    exists j : nat, m = n + Z.of_nat j /\ iter_step p reg j w s = Ok (w', s').
+  Proof.
+    induction fuel as [|f IH]; intros c n w s o w' s' m H; cbn [run_loop_n] in H.
+    - inversion H; subst. exists O. cbn. split; [lia|reflexivity].
+    - destruct (_ <? c). { inversion H; subst. exists O. cbn. split; [lia|reflexivity]. }
+      destruct (_ <? clock c). { inversion H; subst. exists O. cbn. split; [lia|reflexivity]. }
+      destruct (step p reg w s) as [[[fin w1] s1]| |] eqn:Es; cbn [rbind] in H; try discriminate.
+      destruct fin.
+      + inversion H; subst.
+        pose proof (proj1 (step_fin_iff _ _ _ _ _ _ _ Es) eq_refl) as Hex.
+        rewrite (step_empty_exec_noop _ _ _ _ Hex) in Es. inversion Es; subst.
+        exists O. cbn. split; [lia|reflexivity].
+      + destruct (_ <? state_size s1).
+        * inversion H; subst. exists 1%nat. cbn [iter_step]. rewrite Es. cbn. split; [lia|reflexivity].
+        * destruct (IH _ _ _ _ _ _ _ _ H) as (j & Hm & It).
+          exists (S j). cbn [iter_step]. rewrite Es. cbn [rbind fst snd]. split; [lia|exact It].
+  Qed.
+End Count.
